@@ -119,6 +119,46 @@ Fixpoint binary_grammar (t : str) : bool :=
   | _ => false
   end.
 
+(* RFC 4648 section 4, the octets a base64 text denotes: every 4 characters carry 4 x 6 = 24 bits = 3 octets;
+   a final "xy==" carries 8 bits (the low 4 bits of y are not part of the value), a final "xyz=" carries
+   16 bits (the low 2 bits of z are not part of the value).  Some o iff the text is RFC 5545 "binary". *)
+Definition quad3 (x y z w : N) : list N := [x * 4 + y / 16; (y mod 16) * 16 + z / 4; (z mod 4) * 64 + w].
+Fixpoint binary_value (t : str) : option (list N) :=
+  match t with
+  | [] => Some []
+  | [a; b; c; d] =>
+      match b64_val a, b64_val b with
+      | Some x, Some y =>
+          if c =? 61 then (if d =? 61 then Some [x * 4 + y / 16] else None)
+          else match b64_val c with
+               | Some z =>
+                   if d =? 61 then Some [x * 4 + y / 16; (y mod 16) * 16 + z / 4]
+                   else match b64_val d with Some w => Some (quad3 x y z w) | None => None end
+               | None => None
+               end
+      | _, _ => None
+      end
+  | a :: b :: c :: d :: r =>
+      match b64_val a, b64_val b, b64_val c, b64_val d, binary_value r with
+      | Some x, Some y, Some z, Some w, Some o => Some (quad3 x y z w ++ o)
+      | _, _, _, _, _ => None
+      end
+  | _ => None
+  end.
+
+(* RFC 4648 3.5 "canonical encoding": the bits of the last character that are not part of the value
+   are zero (a conforming encoder writes only such texts; a decoder MAY reject the others) *)
+Fixpoint binary_canonical (t : str) : bool :=
+  match t with
+  | [a; b; c; d] =>
+      if d =? 61 then
+        if c =? 61 then match b64_val b with Some y => y mod 16 =? 0 | None => false end
+        else match b64_val c with Some z => z mod 4 =? 0 | None => false end
+      else true
+  | _ :: _ :: _ :: _ :: r => binary_canonical r
+  | _ => true
+  end.
+
 (* ---------------------------------------------------------------- vWeekday *)
 Definition is_word (c : N) : bool := is_lower c || is_upper c || is_digit c || (c =? 95).
 
